@@ -160,10 +160,24 @@ Proof.
   - intros k' r H. upd_case k' k; [discriminate|]. exact (inv_access_device s I _ _ H).
 Qed.
 
+Lemma drop_rid_some t X k r : drop_rid t X k = Some r -> t k = Some r /\ r_id r <> X.
+Proof.
+  unfold drop_rid. destruct (t k) as [r0|]; [|discriminate].
+  destruct (Nat.eqb_spec (r_id r0) X); [discriminate|]. intros [= <-]. auto.
+Qed.
+Lemma drop_rid_keep t X k r : t k = Some r -> r_id r <> X -> drop_rid t X k = Some r.
+Proof. intros H Hn. unfold drop_rid. rewrite H. destruct (Nat.eqb_spec (r_id r) X); [contradiction|reflexivity]. Qed.
+Lemma drop_rid_none t X k : t k = None -> drop_rid t X k = None.
+Proof. intros H. unfold drop_rid. now rewrite H. Qed.
+
 Lemma Inv_revoke_access s X : Inv s -> Inv (set_store s (revoke_access (st s) X)).
 Proof.
-  intros I. unfold revoke_access. destruct (at_idx (st s) X); [now apply Inv_delete_access|].
-  eapply Inv_same_tables; eauto.
+  intros I. constructor; unfold no_active_code_rid, no_device_rid, revoke_access; cbn; try apply I.
+  - intros k' r H. apply drop_rid_some in H as [H _]. now apply I.
+  - intros k' r H. apply drop_rid_some in H as [H _]. now apply I.
+  - intros k' r H. apply drop_rid_some in H as [H _]. now apply I.
+  - intros k' r H. apply drop_rid_some in H as [H _]. exact (inv_access_code s I _ _ H).
+  - intros k' r H. apply drop_rid_some in H as [H _]. exact (inv_access_device s I _ _ H).
 Qed.
 
 Lemma Inv_delete_refresh s k : Inv s -> Inv (set_store s (delete_refresh (st s) k)).
